@@ -108,13 +108,11 @@ class Analyzer:
                 _, lo, hi = self.I.int_parts(v, run)
                 if k == "int":
                     term = ("param", p)
-                    if lo is not None and lo >= 0:
-                        # any non-negative integer: one summary for all widths (70 bits = uvarlong)
-                        sig.append((p, "int", 0, None))
-                        out[p] = Sym(term, "int", lo=0, bv=BV.atom(term, 70, False), hi=(1 << 70) - 1)
-                    else:
-                        sig.append((p, "int", None, None))
-                        out[p] = Sym(term, "int")
+                    # summarised for any non-negative integer (70 bits = uvarlong): one summary for all
+                    # widths.  Whether the actual argument is non-negative is a call-site obligation,
+                    # recorded by emit_atom as a 'precondition' note when it cannot be shown.
+                    sig.append((p, "int", 0, None))
+                    out[p] = Sym(term, "int", lo=0, bv=BV.atom(term, 70, False), hi=(1 << 70) - 1)
                 else:
                     return None, None
             elif isinstance(v, (int, str, bytes, bool)) or v is None:
@@ -331,6 +329,12 @@ class Analyzer:
         bound = dict(zip(names, args))
         bound.update(kwargs)
         site = I.site(node)
+        for pname in (atom.get("size_param"), atom.get("value_param")):
+            v = bound.get(pname) if pname else None
+            if isinstance(v, Sym):
+                bv, lo, _ = I.int_parts(v, run)
+                if not ((lo is not None and lo >= 0) or (bv is not None and bv.ext == BV.ZERO)):
+                    run.emit("note", "precondition", site, f"{atom['kind']} argument {pname} is not shown to be non-negative")
         if atom["kind"] == "xread":
             s, n = bound[atom["stream_param"]], bound[atom["size_param"]]
             term = ("wire", run.fresh_wire(), s.uid)
